@@ -147,6 +147,7 @@ where
           };
         } else {
           needs_more = false;
+          break;
         }
       }
 
